@@ -259,6 +259,29 @@ theorem C13_cpp_table_groups_final :
          | _ => false)
       | _ => false) = true ∧ Gen.cppDefaults.keys = Gen.cppGroupNames := by decide
 
+/-- The shipped table: **every shorthand group sets the same set of keys** — each key set by any group is
+set by every group.  Together with `C13_cpp_shorthand_unit` this is what "as a unit" means for the effective
+options: after an explicit shorthand, no option that belongs to the shorthand vocabulary is left to whatever
+a configuration file said about it (a group that silently omitted a member "because it equals the base
+value" would let a file's value survive the shorthand). -/
+theorem C13_cpp_table_groups_uniform :
+    Gen.cppGroupNames.all (fun g₁ => Gen.cppGroupNames.all (fun g₂ =>
+      match Gen.cppDefaults.get g₁, Gen.cppDefaults.get g₂ with
+      | some (.map a), some (.map b) => a.keys.all (fun k => (b.get k).isSome)
+      | _, _ => false)) = true := by decide
+
+/-- Consequence for any two groups with the same key set (as the table has, by the theorem above): after
+applying group `g`, an option `k` that some other group `g'` sets does not depend on the options before —
+in particular not on what a configuration file said about `k`. -/
+theorem C13_cpp_shorthand_file_independent (g g' o₁ o₂ : M κ σ) (k : κ) (hg : g.NoDupKeys)
+    (hu : ∀ k, (g'.get k).isSome → (g.get k).isSome) (hk : (g'.get k).isSome) :
+    (dictUpdate o₁ g).get k = (dictUpdate o₂ g).get k := by
+  rw [get_dictUpdate g o₁ k hg, get_dictUpdate g o₂ k hg]
+  have := hu k hk
+  cases h : g.get k with
+  | none => simp [h] at this
+  | some v => rfl
+
 /-! ## T6 objects: source documents unmodified, separation
 
 `mergeH true` is `deep_update` with `copy.deepcopy` in the "target is not a mapping" branch (the repaired
